@@ -49,6 +49,7 @@ type flushLine struct {
 	Log    []flushObs      `json:"log"`
 	Hist   *flushSeq       `json:"hist"`
 	Suffix *flushSeq       `json:"suffix"`
+	Salt   *int            `json:"salt"` // pair: the draw of the non-integer activation types of the recorded run
 }
 
 type flushGroup struct {
@@ -56,7 +57,12 @@ type flushGroup struct {
 	net   netCase
 	hists []flushSeq
 	sufs  []flushSeq
-	pairs [][2]flushSeq // explicit pairs (replay of recorded failures)
+	pairs []flushPair // explicit pairs (replay of recorded failures)
+}
+
+type flushPair struct {
+	h, s flushSeq
+	salt int // decides which activation types the float round deals; -1: derive from the pair's position
 }
 
 func init() { commands["replay-flush"] = replayFlush }
@@ -308,7 +314,11 @@ func replayFlush(args []string) int {
 			g.sufs = append(g.sufs, flushSeq{l.Ops, l.Log})
 		case "pair":
 			if l.Hist != nil && l.Suffix != nil {
-				g.pairs = append(g.pairs, [2]flushSeq{*l.Hist, *l.Suffix})
+				salt := -1
+				if l.Salt != nil {
+					salt = *l.Salt
+				}
+				g.pairs = append(g.pairs, flushPair{*l.Hist, *l.Suffix, salt})
 			}
 		}
 		return nil
@@ -345,49 +355,53 @@ func replayFlush(args []string) int {
 				for j, s := range g.sufs {
 					// thinning by a multiplicative hash of the pair's index (no alignment with rows or columns)
 					if step == 1 || int((uint32(i*len(g.sufs)+j+seed+gi)*2654435761)>>8)%step == 0 {
-						pairs = append(pairs, [2]flushSeq{h, s})
+						pairs = append(pairs, flushPair{h, s, -1})
 					}
 				}
 			}
 			// "evaluating the same organism repeatedly on the same inputs": the suffix is also its own history
 			for _, s := range g.sufs {
-				pairs = append(pairs, [2]flushSeq{{Ops: s.Ops}, s})
+				pairs = append(pairs, flushPair{flushSeq{Ops: s.Ops}, s, -1})
 			}
 		}
 		done := make(chan struct{})
-		var current [2]flushSeq
+		var current flushPair
 		go func() {
 			defer close(done)
 			for pi, p := range pairs {
 				current = p
 				lrep.Cases++
 				res.pairs++
-				if feedback && leavesState(p[0].Ops) {
+				if feedback && leavesState(p.h.Ops) {
 					lrep.Nontrivial++
 				}
 				bad := ""
+				salt := p.salt
+				if salt < 0 {
+					salt = seed + gi*31 + pi
+				}
 				if pn := vhu.Guard(func() {
 					for _, genome := range []bool{false, true} {
-						bad += runPair(g, p[0], p[1], genome, false, acts, 0, lrep, st)
-						bad += runPair(g, p[0], p[1], genome, true, acts, seed+gi*31+pi, lrep, st)
+						bad += runPair(g, p.h, p.s, genome, false, acts, 0, lrep, st)
+						bad += runPair(g, p.h, p.s, genome, true, acts, salt, lrep, st)
 					}
 				}); pn != "" {
 					bad += "panic: " + pn + "; "
 				}
 				if bad != "" {
-					pc := map[string]interface{}{"kind": "pair", "net": g.raw, "hist": p[0], "suffix": p[1]}
+					pc := map[string]interface{}{"kind": "pair", "net": g.raw, "hist": p.h, "suffix": p.s, "salt": salt}
 					raw, _ := json.Marshal(pc)
 					lrep.Fail(map[string]interface{}{"case": json.RawMessage(raw), "what": bad,
 						"signature": "flush " + string(raw)})
-				} else if feedback && leavesState(p[0].Ops) && len(p[0].Log) > 0 {
-					lrep.Sample(map[string]interface{}{"net": g.raw, "hist": p[0].Ops, "suffix": p[1]})
+				} else if feedback && leavesState(p.h.Ops) && len(p.h.Log) > 0 {
+					lrep.Sample(map[string]interface{}{"net": g.raw, "hist": p.h.Ops, "suffix": p.s})
 				}
 			}
 		}()
 		select {
 		case <-done:
 		case <-time.After(120 * time.Second):
-			pc := map[string]interface{}{"kind": "pair", "net": g.raw, "hist": current[0], "suffix": current[1]}
+			pc := map[string]interface{}{"kind": "pair", "net": g.raw, "hist": current.h, "suffix": current.s}
 			raw, _ := json.Marshal(pc)
 			// the stuck goroutine still owns lrep: report through a fresh one
 			res.rep = &vhu.Report{}
